@@ -81,6 +81,9 @@ def check(run):
     docs = fragcheck.wide_stream(run, rng, 2500 if thorough else 400, 'c01wide',
                                  feats=widegen.ALL_FEATS)
     docs += fragcheck.wide_stream(run, rng, 2000 if thorough else 400, 'c01avoid', docs=[avoid_document(rng) for _ in range(2000 if thorough else 400)])
+    # tables and multi-column boxes split over several pages (cells that stall, column-span, avoided breaks)
+    docs += fragcheck.wide_stream(run, rng, 1500 if thorough else 300, 'c01split',
+                                  docs=[widegen.split_document(rng) for _ in range(1500 if thorough else 300)])
     kinds = collections.Counter()
     nontrivial = []
     for html, leaves, H, pages in docs:
